@@ -1816,8 +1816,7 @@ bool TypeChecker::checkExpression(expression_t expr)
     }
 
     case EXIT: {
-        assert(temp);
-        if (!temp->dynamic) {
+        if (temp == nullptr || !temp->dynamic) {  // temp is null outside of templates, e.g. in a global function
             handleError(expr, "Exit can only be used in templates declared as dynamic");
             return false;
         }
